@@ -8,6 +8,10 @@ SPEC = {
         {"name": "dhcpd", "pkg": "./internal/dhcpd/", "run": "^TestVerifC05Dhcpd$",
          "harness": ["dhcpd/c05_*.go"], "race": True,
          "timeout_quick": 600, "timeout_thorough": 3000},
+        # Safe-search filter: CheckHost with stale settings snapshots x Update.
+        {"name": "safesearch", "pkg": "./internal/filtering/safesearch/", "run": "^TestVerifC05SafeSearch$",
+         "harness": ["filtering__safesearch/c05_*.go"], "race": True,
+         "timeout_quick": 600, "timeout_thorough": 3000},
         # The statistics module's concurrent workload (shared with C09): updates x
         # API reads x back-to-back hourly roll-overs; a round that does not end is
         # a violation here (stall:stats-round).
@@ -19,7 +23,7 @@ SPEC = {
 }
 
 CLAIM = {
-    "text": "The real binary, built with the Go race detector from the working tree, serves DNS over UDP/TCP to 12 client goroutines while one goroutine per admin-API family (clients, access lists, custom rules, filter lists + refresh against a local list server, rewrites, blocked services, protection pause of 20-50 ms, safe search, parental/safe-browsing toggles, query-log and statistics configuration/clear, DHCP static leases) mutates the live configuration through real HTTP calls; latency is injected at the mock upstream and list server and GOMAXPROCS varies by seed. Monitors: the server's race-detector log (each distinct pair of racing product functions is a violation), panic/fatal scan and exit status, per-query well-formedness of every reply, bounded-progress probe (20 DNS probes + 5 admin GETs within 30 s) after quiescence, clean shutdown. Package-level -race stress monitors cover paths the binary does not reach here: the DHCP server (v4 messages x v4/v6 static leases x readers x lease-file observer) and the statistics module (updates x API reads x back-to-back hourly roll-overs through the real flush; a round that does not finish is a stall).",
+    "text": "The real binary, built with the Go race detector from the working tree, serves DNS over UDP/TCP to 12 client goroutines while one goroutine per admin-API family (clients, access lists, custom rules, filter lists + refresh against a local list server, rewrites, blocked services, protection pause of 20-50 ms, safe search, parental/safe-browsing toggles, query-log and statistics configuration/clear, DHCP static leases) mutates the live configuration through real HTTP calls; latency is injected at the mock upstream and list server and GOMAXPROCS varies by seed. Monitors: the server's race-detector log (each distinct pair of racing product functions is a violation), panic/fatal scan and exit status, per-query well-formedness of every reply, bounded-progress probe (20 DNS probes + 5 admin GETs within 30 s) after quiescence, clean shutdown. Package-level -race stress monitors cover paths the binary does not reach here: the safe-search filter (CheckHost x Update), the DHCP server (v4 messages x v4/v6 static leases x readers x lease-file observer) and the statistics module (updates x API reads x back-to-back hourly roll-overs through the real flush; a round that does not finish is a stall).",
     "note": "Only interleavings that actually occurred are judged; a race whose window never opened is missed. Mutating admin calls go through the product's control lock (they are real HTTP calls); operations that restart listeners (dns_config, tls/configure) are excluded as the statement does not list them.",
     "technique": "Go race detector + panic/stall/well-formedness monitors over a stressed real binary",
 }
